@@ -87,6 +87,8 @@ func Value(r resource.Resource) string {
 		return x.spec.Value
 	case nil:
 		return "<nil>"
+	case vspecHolder:
+		return x.TypedSpec().Value
 	}
 
 	if resource.IsTombstone(r) {
